@@ -8,7 +8,7 @@
     the extracted monitor [ok_dir]). *)
 From Coq Require Import Arith ZArith Bool List Lia.
 From GoSecs Require Import Gen.Gen Gen.BridgeSecs1 Secs1.Block Secs1.BlockProofs
-  Secs1.Assembler Secs1.AssemblerProofs Secs1.Line Secs1.LineProofs Secs1.LineBytes Secs1.LineAssembler.
+  Secs1.Assembler Secs1.AssemblerProofs Secs1.Line Secs1.LineProofs Secs1.LineBytes Secs1.LineAssembler Secs1.LineProgress.
 Import ListNotations.
 Open Scope nat_scope.
 
@@ -80,6 +80,49 @@ Theorem C18_no_deadlock : forall s,
   alive s = true -> final s \/ exists l s', step s l = Some s'.
 Proof. exact no_deadlock. Qed.
 Print Assumptions C18_no_deadlock.
+
+(** ** Progress once the line behaves (the liveness half, for every fault history of finite
+    length).  From EVERY reachable state [s] — reached through arbitrary drops, garbles,
+    contention, retransmissions, NAKs, timeouts — consider the runs that take only non-fault steps
+    (a start, a T2 expiry, the oldest written item passing the line intact), under ANY scheduling of
+    the two engines and their timers:
+    (1) such a run has at most [mu s] steps: the explicit measure
+        [mu s = (blocks not yet ACK'd) * bigK s + potential A + potential B] (Secs1/LineProgress.v:
+        remaining retry budget of the current block times a per-role constant, plus a weight per
+        item in flight) strictly decreases on every enabled non-fault step — no livelock;
+    (2) wherever it stands it is settled or has an enabled non-fault step — no deadlock;
+    (3) after [mu s] steps it is settled: either the link is down (an end gave up after
+        RetryLimit+1 attempts: the definite failure reported to the sender), or both ends are idle
+        with nothing in flight and EVERY queued message of both directions has been delivered
+        exactly once, in order, and its send has returned nil. *)
+Theorem C18_progress : forall la lb ta tb s,
+  wf_todo ta -> wf_todo tb -> reachable (sys0 la lb ta tb) s ->
+  (forall ls s', nofaults ls -> run s ls = Some s' -> length ls + mu s' <= mu s) /\
+  (forall ls s', nofaults ls -> run s ls = Some s' ->
+     settled ta tb s' \/ exists l s'', nofault l = true /\ step s' l = Some s'') /\
+  (forall ls s', nofaults ls -> run s ls = Some s' -> mu s <= length ls -> settled ta tb s').
+Proof. exact progress. Qed.
+Print Assumptions C18_progress.
+
+(** The measure decreases at every single non-fault step (and the invariants are kept). *)
+Theorem C18_measure_decreases : forall la lb ta tb s l s',
+  pinv la lb ta tb s -> nofault l = true -> step s l = Some s' ->
+  mu s' < mu s /\ pinv la lb ta tb s'.
+Proof. exact step_mu. Qed.
+Print Assumptions C18_measure_decreases.
+
+(** The failure branch of "settled" cannot be tied to the budget left when the faults stop: the
+    model leaves the order of the two T2 expiries open, and a slave whose timer keeps firing first
+    against a master that is itself waiting spends its retries although no fault occurs any more
+    (with the master's timer first, everything is delivered). Bounding that is a real-time
+    statement. *)
+Theorem C18_failure_by_timer_order :
+  exists s, run (sys0 3 1 [(7, 1)] [(9, 1)]) [LStart A; LStart B; LLine A Drop; LLine B Deliver] = Some s /\
+    quiet s = true /\ e_ph (sb s) = WaitEOT 0 /\
+    (exists s1, run s [LTimeout B; LLine B Deliver; LTimeout B] = Some s1 /\ alive s1 = false /\ e_deliv (sa s1) = []) /\
+    (let '(s2, n) := drive 100 s in final s2 /\ e_deliv (sb s2) = [7] /\ e_deliv (sa s2) = [9]).
+Proof. exact failure_by_timer_order. Qed.
+Print Assumptions C18_failure_by_timer_order.
 
 (** ** The synchronisation facts behind the proof: the control skeleton of every reachable state
     lies in a 56-entry table closed under the abstract transition relation. *)
@@ -191,3 +234,18 @@ Proof.
   split; [split; [repeat constructor; cbn; tauto|repeat constructor]|].
   split; eexists; (split; [vm_compute; reflexivity|]); cbn; repeat split; reflexivity.
 Qed.
+
+(** Progress, non-vacuity: a state reached through loss (the master's ENQ, then the slave's ACK),
+    contention (simultaneous ENQs, the slave yields) and a duplicate in flight (block 0 of the
+    master's two-block message being retransmitted), with the master's second block and the slave's
+    message pending. [mu] bounds every fault-free scheduling by 486 steps; the scheduler [drive]
+    settles it in 11: both messages delivered exactly once, the duplicate dropped. *)
+Example C18_progress_nonvacuous :
+  exists s, run (sys0 2 2 [(7, 2)] [(9, 1)]) faulty_prefix = Some s /\
+    e_out (sa s) = [OBlk {| b_tok := 7; b_idx := 0; b_last := false |}] /\
+    e_handed (sb s) = 1 /\ e_done (sa s) = [] /\ e_todo (sb s) = [(9, 1)] /\
+    mu s = 486 /\
+    let '(s', n) := drive 100 s in
+    n = 11 /\ final s' /\ e_deliv (sb s') = [7] /\ e_deliv (sa s') = [9] /\
+    e_done (sa s') = [7] /\ e_done (sb s') = [9] /\ e_handed (sb s') = 3.
+Proof. exact progress_example. Qed.
